@@ -89,11 +89,13 @@ where
             write!(result, "{start},{second_processor_id}")
                 .expect("writing to a String is infallible");
         } else {
-            let last_processor_id = start
-                .checked_add(len)
-                .expect("overflow impossible unless we far exceed any realistic processor ID range")
+            // The last ID is `start + (len - 1)`. We subtract first because `start + len`
+            // does not fit in an item when the range ends at the maximum ID.
+            let last_processor_id = len
                 .checked_sub(1)
-                .expect("cannot underflow because len is NonZero");
+                .expect("cannot underflow because len is NonZero")
+                .checked_add(start)
+                .expect("overflow impossible because the last ID of the range is an item");
 
             write!(result, "{start}-{last_processor_id}")
                 .expect("writing to a String is infallible");
